@@ -72,6 +72,7 @@ type Enc struct {
 	resultTypes []types.Type
 	pendingCopyOut []copyOut
 	curCall *ssa.Call
+	lemmaMode bool // proving a `derives` clause: no body, no frame obligations
 }
 
 type exitInfo struct {
@@ -174,7 +175,7 @@ func (e *Enc) env(pre, cur *State, vars map[string]Term) *Env {
 
 // ---- entry -------------------------------------------------------------------
 
-func encodeFunction(w *World, fn *ssa.Function, c *Contract) (enc *Enc) {
+func newEnc(w *World, fn *ssa.Function, c *Contract) *Enc {
 	e := &Enc{
 		w: w, fn: fn, c: c, key: c.Key, declSet: map[string]bool{}, vals: map[ssa.Value]interface{}{},
 		reach: map[*ssa.BasicBlock]string{}, out: map[*ssa.BasicBlock]*State{}, edge: map[[2]int]string{},
@@ -187,6 +188,11 @@ func encodeFunction(w *World, fn *ssa.Function, c *Contract) (enc *Enc) {
 		e.pkg = fn.Origin().Pkg.Pkg
 	}
 	e.isInit = fn.Name() == "init" && fn.Synthetic == "package initializer"
+	return e
+}
+
+func encodeFunction(w *World, fn *ssa.Function, c *Contract) (enc *Enc) {
+	e := newEnc(w, fn, c)
 	defer func() {
 		if r := recover(); r != nil {
 			if u, ok := r.(unsupported); ok {
@@ -202,19 +208,45 @@ func encodeFunction(w *World, fn *ssa.Function, c *Contract) (enc *Enc) {
 		}
 	}()
 	e.run()
+	e.obls = append(e.obls, deriveLemmas(w, fn, c)...)
 	return e
 }
 
 func (e *Enc) run() {
+	e.setupEntry()
+	fn := e.fn
+	// vacuity: the precondition must be satisfiable
+	vo := e.oblige("vacuity", "requires-sat", "false", "requires (and entry assumptions) must be satisfiable", nil, fn.Pos())
+	vo.expectSat = true
+
+	for _, b := range fn.Blocks {
+		for _, in := range b.Instrs {
+			if d, ok := in.(*ssa.DebugRef); ok {
+				if obj := d.Object(); obj != nil {
+					e.nameDefs[obj.Name()] = append(e.nameDefs[obj.Name()], d)
+				}
+			}
+		}
+	}
+	e.findLoops()
+	order := e.rpo()
+	for _, b := range order {
+		e.block(b)
+	}
+	e.exit()
+}
+
+// setupEntry declares parameters and assumes everything that holds on entry.
+func (e *Enc) setupEntry() {
 	w, fn := e.w, e.fn
 	e.declare("W_0", "Int")
-	e.declare("A_0", "Int")
+	e.declare("A_0", wideSort)
 	e.declare("H_0", "Int")
 	e.entry = &State{mem: map[string]string{}, W: "W_0", A: "A_0", H: "H_0"}
 	e.cur = e.entry.clone()
 	e.curReach = "true"
 	e.body = append(e.body, fmt.Sprintf("(assert (>= W_0 %d))", 4096)) // room for package-level objects
-	e.body = append(e.body, "(assert (>= A_0 0))")
+	e.body = append(e.body, "(assert (bvult A_0 (_ bv1 128)))") // the counter is relative: only differences matter
 	for _, p := range fn.Params {
 		name := "p_" + sanitize(p.Name())
 		t := mkTerm(w, name, p.Type())
@@ -264,25 +296,68 @@ func (e *Enc) run() {
 	for _, m := range e.c.Modifies {
 		e.modAddrs = append(e.modAddrs, e.trAddr(e.env(e.entry, e.entry, nil), m.Expr)...)
 	}
-	// vacuity: the precondition must be satisfiable
-	vo := e.oblige("vacuity", "requires-sat", "false", "requires (and entry assumptions) must be satisfiable", nil, fn.Pos())
-	vo.expectSat = true
+}
 
-	for _, b := range fn.Blocks {
-		for _, in := range b.Instrs {
-			if d, ok := in.(*ssa.DebugRef); ok {
-				if obj := d.Object(); obj != nil {
-					e.nameDefs[obj.Name()] = append(e.nameDefs[obj.Name()], d)
+// deriveLemmas proves the `derives` clauses of the contract: each follows from the named
+// ensures clauses alone (which are proved against the body), so the obligation is a pure
+// two-state lemma -- the function is "called" through the selected part of its own contract.
+func deriveLemmas(w *World, fn *ssa.Function, c *Contract) []*Obligation {
+	var out []*Obligation
+	for _, d := range c.Ensures {
+		if !d.Derived {
+			continue
+		}
+		le := newEnc(w, fn, c)
+		le.lemmaMode = true
+		func() {
+			defer func() {
+				if r := recover(); r != nil {
+					u, ok := r.(unsupported)
+					if !ok {
+						panic(r)
+					}
+					le.curReach = "true"
+					o := le.oblige("derives", d.Label, "false", "lemma left the subset: "+string(u), d.Props, fn.Pos())
+					o.Status, o.Output = "failed", string(u)
+				}
+			}()
+			le.setupEntry()
+			sub := *c
+			sub.Ensures = nil
+			sub.GhostSets = c.GhostSets
+			for _, en := range c.Ensures {
+				if en == d {
+					break // only clauses stated before this one may be cited (no circular derivations)
+				}
+				for _, f := range d.From {
+					if en.Label == f {
+						sub.Ensures = append(sub.Ensures, en)
+					}
 				}
 			}
-		}
+			sub.Requires = nil
+			vars := map[string]Term{}
+			for k, v := range le.params {
+				vars[k] = v
+			}
+			res := le.applyContract(&sub, "true", vars, le.resultTypes, fn.Pos(), c.Key, le.entry.clone(), "", "", true)
+			for i, r := range res {
+				vars[fmt.Sprintf("ret%d", i)] = r
+				if len(res) == 1 {
+					vars["ret"] = r
+				}
+				if nr := fn.Signature.Results().At(i).Name(); nr != "" && nr != "_" {
+					if _, clash := vars[nr]; !clash {
+						vars[nr] = r
+					}
+				}
+			}
+			goal := le.env(le.entry, le.cur, vars).bool(d.Expr)
+			le.oblige("derives", d.Label, goal, d.Text+"   [from "+strings.Join(d.From, ", ")+"]", d.Props, fn.Pos())
+		}()
+		out = append(out, le.obls...)
 	}
-	e.findLoops()
-	order := e.rpo()
-	for _, b := range order {
-		e.block(b)
-	}
-	e.exit()
+	return out
 }
 
 func (e *Enc) globalApplies(g *Clause) bool {
@@ -454,7 +529,7 @@ func (e *Enc) block(b *ssa.BasicBlock) {
 				st.mem[k] = merge(k, e.mems[k].Sort)
 			}
 			st.W = merge("$W", "Int")
-			st.A = merge("$A", "Int")
+			st.A = merge("$A", wideSort)
 			st.H = merge("$H", "Int")
 			e.cur = st
 		}
@@ -536,7 +611,7 @@ func (e *Enc) loopHead(li *loopInfo, phiIn map[*ssa.Phi]string) {
 	wn := e.fresh("W_h")
 	e.declare(wn, "Int")
 	an := e.fresh("A_h")
-	e.declare(an, "Int")
+	e.declare(an, wideSort)
 	hn := e.fresh("H_h")
 	e.declare(hn, "Int")
 	preW, preA, preH := e.cur.W, e.cur.A, e.cur.H
@@ -544,7 +619,7 @@ func (e *Enc) loopHead(li *loopInfo, phiIn map[*ssa.Phi]string) {
 	e.cur = st
 	e.assume(fmt.Sprintf("(>= %s %s)", hn, preH))
 	e.assume(fmt.Sprintf("(>= %s %s)", wn, preW))
-	e.assume(fmt.Sprintf("(>= %s %s)", an, preA))
+	e.assume(fmt.Sprintf("(bvuge %s %s)", an, preA))
 	for _, in := range b.Instrs {
 		phi, ok := in.(*ssa.Phi)
 		if !ok {
@@ -851,7 +926,7 @@ func (e *Enc) nilCheck(ref string, what string, pos token.Pos) {
 
 // frameCheck: a store to a must hit the modifies set or memory allocated by this call.
 func (e *Enc) frameCheck(a *Addr, what string, pos token.Pos) {
-	if !e.c.ModGiven {
+	if !e.c.ModGiven || e.lemmaMode {
 		return
 	}
 	for _, l := range e.w.leafAddrs(a) {
@@ -1029,6 +1104,7 @@ func (e *Enc) instr(in ssa.Instruction) {
 		e.assume(fmt.Sprintf("(= %s ((as const (Array %s %s)) %s))", sel(stateMem(e.cur, e.useMem, m), ref), bv64, w.reg.sortOf(et), w.reg.zero(et)))
 		e.def(in, fmt.Sprintf("(mk-slice %s #x0000000000000000 %s %s)", ref, l.S, c.S))
 		e.chargeAllocBV(c.S, sizeOf(et))
+		e.allocSite(in.Cap, c.S, "make([]T, ...) capacity", in.Pos())
 	case *ssa.MakeMap:
 		mt := in.Type().Underlying().(*types.Map)
 		ref := e.alloc("map")
@@ -1038,6 +1114,7 @@ func (e *Enc) instr(in ssa.Instruction) {
 		if in.Reserve != nil {
 			r := w.resize(e.term(in.Reserve), types.Typ[types.Int], true)
 			e.chargeAllocBV(r.S, sizeOf(mt.Key())+sizeOf(mt.Elem())+8)
+			e.allocSite(in.Reserve, r.S, "make(map, n) size hint", in.Pos())
 		}
 		e.chargeAlloc("48")
 	case *ssa.Lookup:
@@ -1444,7 +1521,7 @@ func (e *Enc) exit() {
 		hv = fmt.Sprintf("(ite %s %s %s)", e.exits[j].reach, e.exits[j].st.H, hv)
 	}
 	st.W = e.define("W_exit", "Int", wv)
-	st.A = e.define("A_exit", "Int", av)
+	st.A = e.define("A_exit", wideSort, av)
 	st.H = e.define("H_exit", "Int", hv)
 	e.cur = st
 	e.curReach = rx
@@ -1453,6 +1530,9 @@ func (e *Enc) exit() {
 	e.applyGhostSets(e.c, e.env(e.entry, st, vars), "true")
 	env := e.env(e.entry, st, vars)
 	for i, c := range e.c.Ensures {
+		if c.Derived {
+			continue // proved as a lemma from other clauses (deriveLemmas)
+		}
 		label := c.Label
 		if label == "" {
 			label = fmt.Sprint(i)
@@ -1469,6 +1549,39 @@ func (e *Enc) exit() {
 			}()
 			goal = env.bool(c.Expr)
 		}()
+		if len(e.exits) > 1 && (strings.Contains(goal, "(forall ") || strings.Contains(goal, "(exists ")) {
+			// quantified postcondition: one obligation per return site, each over that path's own
+			// state (no ite-merged memories under the quantifier)
+			saved := e.curReach
+			for _, x := range e.exits {
+				xv := map[string]Term{}
+				for k, v := range e.params {
+					xv[k] = v
+				}
+				for i2, t2 := range e.resultTypes {
+					tm := Term{x.vals[i2].S, w.reg.sortOf(t2), t2}
+					xv[fmt.Sprintf("ret%d", i2)] = tm
+					if len(e.resultTypes) == 1 {
+						xv["ret"] = tm
+					}
+					if nr := e.fn.Signature.Results().At(i2).Name(); nr != "" && nr != "_" {
+						if _, clash := xv[nr]; !clash {
+							xv[nr] = tm
+						}
+					}
+				}
+				xs := x.st.clone()
+				e.cur = xs
+				xenv := e.env(e.entry, xs, xv)
+				e.applyGhostSets(e.c, xenv, "true")
+				xenv = e.env(e.entry, e.cur, xv)
+				e.curReach = x.reach
+				e.oblige("ensures", fmt.Sprintf("%s@b%d", label, x.blk.Index), xenv.bool(c.Expr), c.Text, c.Props, e.fn.Pos())
+			}
+			e.curReach = saved
+			e.cur = st
+			continue
+		}
 		e.oblige("ensures", label, goal, c.Text, c.Props, e.fn.Pos())
 	}
 	// refinement: an in-repo method must meet the interface-level contract that callers of the
@@ -1716,6 +1829,21 @@ func (e *Enc) applyGhostSets(ct *Contract, env *Env, guard string) {
 	}
 }
 
+// allocSite: under an `allocbound` clause, a sized allocation whose size is not a constant must
+// request no more elements than the bound (an expression over the function's inputs, e.g. the
+// length of the buffer being decoded): sender-chosen length fields cannot reserve memory for
+// data that is not there (C06).
+func (e *Enc) allocSite(size ssa.Value, term string, what string, pos token.Pos) {
+	if e.c.AllocBound == nil {
+		return
+	}
+	if _, isConst := size.(*ssa.Const); isConst {
+		return
+	}
+	b := e.env(e.entry, e.entry, nil).tr(e.c.AllocBound.Expr, types.Typ[types.Int])
+	e.oblige("alloc", "", and("(bvsle #x0000000000000000 "+term+")", "(bvsle "+term+" "+b.S+")"), what+" must not exceed "+e.c.AllocBound.Text, e.c.AllocBound.Props, pos)
+}
+
 // compact names every memory term that has grown, so that later terms refer to it by
 // name instead of copying it (keeps the VC linear in the size of the function).
 func (e *Enc) compact() {
@@ -1732,11 +1860,13 @@ func (e *Enc) compact() {
 }
 
 func (e *Enc) chargeAlloc(bytes string) {
-	e.cur.A = e.define(e.fresh("A"), "Int", "(+ "+e.cur.A+" "+bytes+")")
+	var n int64
+	fmt.Sscanf(bytes, "%d", &n)
+	e.cur.A = e.define(e.fresh("A"), wideSort, "(bvadd "+e.cur.A+" "+wideLit(n)+")")
 }
 
 func (e *Enc) chargeAllocBV(n string, elemSize int64) {
-	e.cur.A = e.define(e.fresh("A"), "Int", fmt.Sprintf("(+ %s (* %d (bv2nat %s)))", e.cur.A, elemSize, n))
+	e.cur.A = e.define(e.fresh("A"), wideSort, fmt.Sprintf("(bvadd %s (bvmul %s ((_ zero_extend 64) %s)))", e.cur.A, wideLit(elemSize), n))
 }
 
 func (e *Enc) globalStore(g *ssa.Global, v Term, pos token.Pos) {
